@@ -151,6 +151,13 @@ def own_programs():
     def chain_three_unary(a):                   # single transpose, elementwise chain of 3
         return jnp.transpose(jnp.tanh(jnp.exp(jnp.abs(jnp.transpose(a, NHWC)))), NCHW)
 
+    def gather_const_index_chain(x):            # gather whose indices are constant * literal in the SAME jaxpr:
+        import numpy as np                      # foldable only by the handlers gather.py registers on a context
+        from jax import lax
+        dn = lax.GatherDimensionNumbers(offset_dims=(1,), collapsed_slice_dims=(0,), start_index_map=(0,))
+        idx = lax.reshape(lax.mul(jnp.asarray(np.array([2, 0, 1], dtype=np.int32)), np.int32(1)), (3, 1))
+        return lax.gather(x, idx, dn, slice_sizes=(1, 5), mode="promise_in_bounds")
+
     class TwoDropouts(nnx.Module):
         def __init__(self, rngs):
             self.l1 = nnx.Linear(6, 6, rngs=rngs)
@@ -180,6 +187,7 @@ def own_programs():
         "c14:forest_two_outputs": (forest_two_outputs, s4 * 2, {}),
         "c14:add_forest_two_outputs": (add_forest_two_outputs, s4 * 3, {}),
         "c14:chain_three_unary": (chain_three_unary, s4, {}),
+        "c14:gather_const_index_chain": (gather_const_index_chain, [(4, 5)], {}),
         "c14:two_dropouts_call_param": (TwoDropouts(nnx.Rngs(0)), [(3, 6)], {"input_params": {"deterministic": True}}),
         "c14:conv_bn_residual_nchw_io": (ConvBnResidual(nnx.Rngs(0)), [(1, 8, 8, 4)],
                                          {"inputs_as_nchw": [0], "outputs_as_nchw": [0]}),
@@ -190,7 +198,10 @@ def own_programs():
 
 OWN_NAMES = ["c14:function_two_call_params", "c14:forest_unary_after_add", "c14:forest_binary_only", "c14:forest_two_outputs",
              "c14:add_forest_two_outputs", "c14:chain_three_unary", "c14:two_dropouts_call_param",
-             "c14:conv_bn_residual_nchw_io", "c14:conv_bn_residual_symbolic_nchw_io"]
+             "c14:conv_bn_residual_nchw_io", "c14:conv_bn_residual_symbolic_nchw_io", "c14:gather_const_index_chain"]
+# requests that history job h exports as the very FIRST conversion of its process (then 3x repeated): state that
+# only the first conversion of a process initialises shows up as first-vs-second difference
+FIRST_REQUESTS = ["c14:gather_const_index_chain", "x:nested_onnx_functions", "c14:function_two_call_params"]
 
 
 def all_requests():
@@ -698,6 +709,99 @@ def scan_sites():
     return out
 
 
+# ------------------------------------------------------------------------------------------------
+# process-global state written while converting: every module-level object mutated inside a function, every
+# `global` statement and every class attribute assigned through `cls.` must be classified here (fail closed)
+#   memo       : transparent cache (Determinism.v signature_cache_transparent + behavioural tie)
+#   registry   : filled by plugin import (covered by the import-order sweep)
+#   contextvar : set and reset inside one conversion
+#   patch      : patch bookkeeping (property C13)
+#   report     : only read by reporting helpers
+#   init-flag  : idempotent one-time initialisation whose effect is itself process-global
+#   OBSERVABLE : feeds the exported bytes - a finding (see known_findings.d/C14.json)
+# ------------------------------------------------------------------------------------------------
+GLOBAL_STATE = {
+    ("converter/lowering_dispatch.py", "_LOWER_SIGNATURE_CACHE"): ("memo", "keyed by the function object, value = 'params' in its signature"),
+    ("plugins/jax/lax/gather.py", "_CONST_HANDLERS_REGISTERED"): (
+        "OBSERVABLE", "process-wide flag guarding a registration on PER-CONTEXT state (ctx._const_folder): only the first "
+                      "IRContext of the process that lowers a gather gets the constant-evaluator handlers; request "
+                      "c14:gather_const_index_chain; Determinism.v handlers_history_independent_refuted"),
+    ("plugins/plugin_system.py", "EXAMPLE_REGISTRY"): ("registry", "docs/test metadata"),
+    ("plugins/plugin_system.py", "ONNX_FUNCTION_PLUGIN_REGISTRY"): ("registry", "qualified name -> FunctionPlugin, written by the decorator"),
+    ("plugins/plugin_system.py", "PLUGIN_REGISTRY"): ("registry", "primitive name -> plugin, written at import / decoration"),
+    ("plugins/plugin_system.py", "INSTANCE_MAP2"): ("memo", "weak id(instance) -> instance, rewritten at every bind before the lowering reads it"),
+    ("plugins/plugin_system.py", "_IN_FUNCTION_BUILD"): ("contextvar", "reset in finally"),
+    ("plugins/plugin_system.py", "_ONNX_FN_HITS"): ("contextvar", "test bookkeeping, consumed at the end of to_onnx"),
+    ("plugins/plugin_system.py", "_PATCH_STATE"): ("patch", "reference counts of applied patches (C13)"),
+    ("plugins/plugin_system.py", "_RNG_TRACE_REGISTRY"): ("report", "names for CI reporting"),
+    ("plugins/plugin_system.py", "_already_imported_plugins"): ("init-flag", "guards the one-time import of the plugin tree, whose effect (the registries) is process-wide too"),
+}
+CLASS_STATE = {
+    "_ABSTRACT_EVAL_BOUND": ("init-flag", "guards def_abstract_eval on the class's primitive, itself process-wide"),
+    "_ORIG_CALL": ("patch", "original callable kept for the patch wrapper (C13)"),
+    "_ORIG_FORI_LOOP": ("patch", "original callable kept for the patch wrapper (C13)"),
+}
+
+MUT = {"add","append","update","pop","setdefault","clear","set","extend","remove","discard","insert","popitem","reset","appendleft"}
+def scan_globals(path):
+    tree = ast.parse(open(path).read())
+    modnames = {}
+    for n in tree.body:
+        tg, val = [], None
+        if isinstance(n, ast.Assign): tg, val = [t.id for t in n.targets if isinstance(t, ast.Name)], n.value
+        elif isinstance(n, ast.AnnAssign) and isinstance(n.target, ast.Name): tg, val = [n.target.id], n.value
+        for t in tg: modnames[t] = val
+    out = {}
+    def funcs(body, prefix=""):
+        for n in body:
+            if isinstance(n, (ast.FunctionDef, ast.AsyncFunctionDef)): yield prefix+n.name, n
+            elif isinstance(n, ast.ClassDef): yield from funcs(n.body, prefix+n.name+".")
+    for fname, fn in funcs(tree.body):
+        local = {a.arg for a in fn.args.args+fn.args.kwonlyargs}
+        for x in ast.walk(fn):
+            if isinstance(x, ast.Global):
+                for nm in x.names: out.setdefault(nm, set()).add(("global", fname))
+        # local assignments shadow module names
+        assigned = set()
+        globs = {nm for x in ast.walk(fn) if isinstance(x, ast.Global) for nm in x.names}
+        for x in ast.walk(fn):
+            if isinstance(x, (ast.Assign, ast.AnnAssign, ast.AugAssign)):
+                tgs = x.targets if isinstance(x, ast.Assign) else [x.target]
+                for t in tgs:
+                    if isinstance(t, ast.Name) and t.id not in globs: assigned.add(t.id)
+        for x in ast.walk(fn):
+            nm = None; how = None
+            if isinstance(x, ast.Call) and isinstance(x.func, ast.Attribute) and x.func.attr in MUT and isinstance(x.func.value, ast.Name):
+                nm, how = x.func.value.id, "."+x.func.attr
+            elif isinstance(x, (ast.Assign, ast.AugAssign, ast.Delete)):
+                tgs = x.targets if isinstance(x, (ast.Assign, ast.Delete)) else [x.target]
+                for t in tgs:
+                    if isinstance(t, ast.Subscript) and isinstance(t.value, ast.Name):
+                        nm, how = t.value.id, "[]="
+            if nm and nm in modnames and nm not in local and nm not in assigned:
+                out.setdefault(nm, set()).add((how, fname))
+    return out
+
+
+def scan_global_state():
+    """({(relative file, name): uses}, {class attribute: [files]}) over the whole package (sandbox excluded)"""
+    root = os.path.join(REPO, "jax2onnx")
+    res, cls_attrs = {}, {}
+    for path in sorted(glob.glob(root + "/**/*.py", recursive=True)):
+        rel = os.path.relpath(path, root)
+        if rel.startswith("sandbox"):
+            continue
+        try:
+            src = open(path).read()
+            for nm, uses in scan_globals(path).items():
+                res[(rel, nm)] = sorted(uses)
+        except SyntaxError:
+            continue
+        for m in re.finditer(r"(?m)^\s*(?:cls|self\.__class__|type\(self\))\.([A-Za-z_]\w*)\s*(?::[^=\n]+)?=[^=]", src):
+            cls_attrs.setdefault(m.group(1), []).append(rel)
+    return res, cls_attrs
+
+
 def counter_scopes():
     """where the three counter families are constructed: {family: (per_conversion?, detail)}"""
     res = {}
@@ -823,9 +927,13 @@ def make_jobs(ctx, reqs):
         steps = []
         order = list(reqs)
         hr.shuffle(order)
+        first = FIRST_REQUESTS[h] if h < len(FIRST_REQUESTS) and FIRST_REQUESTS[h] in order else None
+        if first:
+            order.remove(first)
+            order.insert(0, first)
         ctr = 0
         for r in order:                                   # pass 1: random prefix, then the request 3x
-            for _ in range(hr.choice([0, 1, 1, 2])):
+            for _ in range(0 if r == first else hr.choice([0, 1, 1, 2])):
                 ctr += 1
                 k = hr.random()
                 if k < 0.45:
@@ -998,6 +1106,19 @@ def run(ctx):
                not unmodelled, "tie", "" if not unmodelled else f"new: {unmodelled}")
     ctx.oblige("tie:modelled-sites-exist-in-source", not gone, "tie", "" if not gone else f"modelled but not found: {gone}")
     line2site = {(f[:-3] + ":" + fn.split(".")[-1], ln): (f, fn, var, how) for (f, fn, var, how, ln, kind) in found}
+
+    # ---------------- tie: every piece of process-global state written by the package is classified
+    gstate, cstate = scan_global_state()
+    new_g = sorted(k for k in gstate if k not in GLOBAL_STATE)
+    new_c = sorted(k for k in cstate if k not in CLASS_STATE)
+    for k in new_g:
+        ctx.oblige(f"unclassified process-global state: {k[0]}:{k[1]}", False, "tie", f"written by {gstate[k][:4]}")
+    for k in new_c:
+        ctx.oblige(f"unclassified class-level state: cls.{k}", False, "tie", f"assigned in {sorted(set(cstate[k]))[:4]}")
+    ctx.oblige(f"tie:process-global-state-all-classified({len(gstate)} module objects, {len(cstate)} class attributes)",
+               not new_g and not new_c, "tie", "" if not (new_g or new_c) else f"new: {new_g} {new_c}")
+    ctx.coverage["process_global_state"] = {f"{k[0]}:{k[1]}": (GLOBAL_STATE.get(k, ("UNCLASSIFIED", ""))[0]) for k in sorted(gstate)}
+    ctx.coverage["process_global_state_classified_but_absent"] = sorted(f"{k[0]}:{k[1]}" for k in GLOBAL_STATE if k not in gstate)
 
     # ---------------- tie: counters feeding names are constructed per conversion
     scopes, globs = counter_scopes()
